@@ -34,7 +34,9 @@ def parseChunks (s : String) : Option (List Chunk) :=
     else if item.startsWith "X" then (item.drop 1).toString.toNat?.map Chunk.raw
     else none
 
-def greeting (port : Nat) : List UInt8 := s!"greeting-from-{port}".toUTF8.toList
+def greeting (port : Nat) : List UInt8 :=
+  if port == 9004 then ((List.range 8).map fun i => s!"slow-record-{i};").foldl (· ++ ·) "" |>.toUTF8.toList
+  else s!"greeting-from-{port}".toUTF8.toList
 
 def portOf (sink : String) : Nat := ((sink.splitOn ":").getLast?.bind String.toNat?).getD 0
 
@@ -49,12 +51,16 @@ def showEffs (sink : String) (es : List Eff) : String :=
     | .toClient _ => none
     | .closed st cp pt tp pc => some s!"closed={st},{cp},{pt},{tp},pc={if pc then "match" else "0"}"
     | .closeClass c => some s!"close={c}"
+    | .serverFin _ => none
   let cli := match es.findSome? fun e => match e with | .toClient p => some p | _ => none with
     | some p => s!"cli={digest p}"
     | none => "cli=-"
   -- the client-side item is printed just before `closed=`
   let (a, b) := parts.span fun p => !(p.startsWith "closed=")
-  " ".intercalate (a ++ [cli] ++ b)
+  let sfin := match es.findSome? fun e => match e with | .serverFin w => some w | _ => none with
+    | some w => s!"srvfin={w}"
+    | none => "srvfin=-"
+  " ".intercalate (a ++ [cli] ++ b ++ [sfin])
 
 def step (d : St) (args : List String) : St × String :=
   match args with
